@@ -94,6 +94,9 @@ int main(int argc, char** argv) {
 		std::istringstream is(line);
 		std::string cmd, alg, fn; std::size_t nobj, nvar, mu, seed, steps; int useRef; double refval;
 		if (!(is >> cmd >> alg >> fn >> nobj >> nvar >> mu >> seed >> steps >> useRef >> refval)) continue;
+		// optional: the SAME optimizer object first completes an earlier run of `pre` steps (other seed) and is initialised again;
+		// everything printed must equal the run of a fresh object
+		std::size_t pre = 0; is >> pre; if (!is) pre = 0;
 		std::unique_ptr<Fn> f;
 		using namespace shark::benchmarks;
 		if (fn == "ZDT1") f = mk<ZDT1>(nvar, nobj); else if (fn == "ZDT2") f = mk<ZDT2>(nvar, nobj);
@@ -124,6 +127,8 @@ int main(int argc, char** argv) {
 				expect = RVEA::suggestMu(f->numberOfObjectives(), mu); opt.reset(a); }
 			else { std::cout << o.str() << "\nEXC unknown algorithm\n"; continue; }
 			o << " mu=" << expect << " lo="; pv(o, bh.lower()); o << " hi="; pv(o, bh.upper()); o << "\n";
+			if (pre > 0) { rng.seed(seed + 7919); f->init(); opt->init(*f); for (std::size_t t = 0; t != pre; ++t) opt->step(*f); }
+			rng.seed(seed); f->init();
 			opt->init(*f);
 			for (std::size_t t = 0; t <= steps; ++t) {
 				if (t > 0) opt->step(*f);
